@@ -222,7 +222,7 @@ Mutate(f) == /\ phase = "build" /\ WellFormed(comps)
 
 PlainKinds == {"none", "drop", "rename", "restage", "cycle", "dup"}
 (* the builder actions of Replicate, leaving the new variables alone *)
-AddComponentV(n, s, r, g) == AddComponent(n, s, r, g, 0, FALSE) /\ UNCHANGED <<mw, fault, verdict>>   \* no private variables here
+AddComponentV(n, s, r, g) == AddComponent(n, s, r, g, 0, FALSE, 0) /\ UNCHANGED <<mw, fault, verdict>>   \* no private variables here
 AddRefV(p, sp, pa, m, st) == AddRef(p, sp, pa, m, st) /\ UNCHANGED <<mw, fault, verdict>>
 
 NextV == \/ \E n \in Names, s \in Stages, r \in RepChoices, g \in AggChoices : AddComponentV(n, s, r, g)
